@@ -224,6 +224,10 @@ class PureEvalError(Exception):
     pass
 
 
+class Raised(Exception):
+    """Marker raised by a fake collaborator handed to an evaluated function (e.g. its error-raising helper)."""
+
+
 def builder_expr_eval(allowed_methods: tuple = ()):
     """Expression evaluator for the AST *builders* of subheader.py: only `ast.<Class>(...)` constructors, isinstance, the pure
     builtins and the named methods of the supplied (fake) objects may be called; names must be bound in the environment."""
@@ -242,11 +246,12 @@ def builder_expr_eval(allowed_methods: tuple = ()):
                 raise PureEvalError(f"name `{n.id}` is not bound")
             elif isinstance(n, (ast.Lambda, ast.Yield, ast.YieldFrom, ast.Await, ast.NamedExpr)):
                 raise PureEvalError(f"{type(n).__name__} outside the builder subset")
+        e = ast.fix_missing_locations(ast.Expression(body=e)).body
         try:
             return eval(compile(ast.Expression(e), "<builder expr>", "eval"), {"__builtins__": {"isinstance": isinstance, "len": len, "bool": bool,
                                                                                               "str": str, "tuple": tuple, "list": list,
                                                                                               "dict": dict}}, env)  # noqa: S307
-        except PureEvalError:
+        except (PureEvalError, Raised):
             raise
         except Exception as ex:  # the builder itself failed on this input
             raise PureEvalError(f"{type(ex).__name__}: {ex}")
@@ -296,6 +301,9 @@ def eval_pure_function(fn: ast.FunctionDef, args: dict, data_attrs: tuple = (), 
                 continue
             if isinstance(st, ast.Pass):
                 continue
+            if isinstance(st, ast.Expr) and expr_eval is not None:
+                ev(st.value)  # evaluated for its effect on the fake collaborators (may raise their marker)
+                continue
             if isinstance(st, ast.Assign):
                 v = ev(st.value)
                 for t in st.targets:
@@ -304,6 +312,12 @@ def eval_pure_function(fn: ast.FunctionDef, args: dict, data_attrs: tuple = (), 
                 assign(st.target, ev(st.value))
             elif isinstance(st, ast.If):
                 run(st.body if ev(st.test) else st.orelse)
+            elif isinstance(st, ast.AugAssign) and isinstance(st.target, ast.Name) and expr_eval is not None:
+                env[st.target.id] = ev(ast.BinOp(left=ast.Name(id=st.target.id, ctx=ast.Load()), op=st.op, right=st.value))
+            elif isinstance(st, ast.While) and not st.orelse and expr_eval is not None and not any(
+                    isinstance(x, (ast.Break, ast.Continue)) for x in ast.walk(st)):
+                while ev(st.test):
+                    run(st.body)
             elif isinstance(st, ast.Return):
                 raise _Return(ev(st.value) if st.value is not None else None)
             else:
